@@ -8,7 +8,6 @@ package main
 // before and after, the result is projected.
 
 import (
-	"reflect"
 	"bufio"
 	"bytes"
 	"encoding/json"
@@ -17,6 +16,7 @@ import (
 	"os"
 	"os/exec"
 	"path/filepath"
+	"reflect"
 	"sort"
 	"strings"
 
